@@ -36,10 +36,15 @@ inline void take_value(std::optional<V>& r, Outcome& out)
 template<typename P, typename Buf, typename Stream>
 inline void call_api(const P& p, const ExecOp& op, const Buf& buf, Stream& st, Outcome& out)
 {
-    ctpg::parse_options o;
+    // the options are the caller's object: either a local of this call, or (plan.share_options) ONE long-lived object of
+    // the task that is set anew before every call - a call made from inside a functor of a running call sets it too, and
+    // the running call must keep working with what it was given when it started (S102)
+    static_assert(sizeof(ctpg::parse_options) <= 64);
+    ctpg::parse_options local;
+    ctpg::parse_options& o = op.shared_opts ? *new (op.shared_opts) ctpg::parse_options : local;
     o.set_verbose(op.verbose).set_skip_whitespace(op.skip_ws).set_skip_newline(op.skip_nl);
     // with default options the shorter public overloads are used (they forward to the same driver)
-    const bool defaults = !op.verbose && op.skip_ws && op.skip_nl;
+    const bool defaults = !op.shared_opts && !op.verbose && op.skip_ws && op.skip_nl;
     constexpr bool no_stream = std::is_same_v<Stream, ctpg::utils::no_stream>;
     if (op.api == API_CONTEXT_PARSE_TEMP)
     {
@@ -111,6 +116,9 @@ inline void with_cstring(const P& p, const ExecOp& op, Outcome& out)
     char arr[N];
     std::memset(arr, 0, N);
     std::memcpy(arr, op.input.data(), op.input.size() < N - 1 ? op.input.size() : N - 1);
+    // half of the arrays are completely filled (no terminating NUL): cstring_buffer<N> takes a char[N] and treats the
+    // first N-1 elements as the text whatever the last one is, so nothing may depend on finding a NUL (S97)
+    if ((op.input.size() + size_t(op.op_index) + (op.input.empty() ? 0u : size_t((unsigned char)op.input[0]))) % 2 == 1) arr[N - 1] = '#';
     ctpg::buffers::cstring_buffer<N> buf(arr);
     simrt::set_buffer(buf.begin().ptr, int64_t(N - 1));
     with_stream(p, op, buf, out);
@@ -262,6 +270,9 @@ inline void match_cstring(const M& m, const ExecOp& op, Outcome& out)
     char arr[N];
     std::memset(arr, 0, N);
     std::memcpy(arr, op.input.data(), op.input.size() < N - 1 ? op.input.size() : N - 1);
+    // half of the arrays are completely filled (no terminating NUL): cstring_buffer<N> takes a char[N] and treats the
+    // first N-1 elements as the text whatever the last one is, so nothing may depend on finding a NUL (S97)
+    if ((op.input.size() + size_t(op.op_index) + (op.input.empty() ? 0u : size_t((unsigned char)op.input[0]))) % 2 == 1) arr[N - 1] = '#';
     ctpg::buffers::cstring_buffer<N> buf(arr);
     simrt::set_buffer(buf.begin().ptr, int64_t(N - 1));
     match_with_stream(m, op, buf, out);
